@@ -529,8 +529,13 @@ class EagerEncoder(Encoder):
     def get_design_variables(cls, design_vectors: Dict[NodeExistence, np.ndarray]) -> List[DiscreteDV]:
         """Convert possible design vectors to design variable definitions"""
         design_vars_list = []
+        has_pattern_without_dv = False
         for des_vectors in design_vectors.values():
-            if des_vectors.shape[0] == 0 or des_vectors.shape[1] == 0:
+            if des_vectors.shape[0] == 0:
+                continue
+            if des_vectors.shape[1] == 0:
+                # An existence pattern with matrices but without design variables: all variables are inactive there
+                has_pattern_without_dv = True
                 continue
 
             # Check if all design vectors are unique
@@ -555,6 +560,8 @@ class EagerEncoder(Encoder):
         for dv in design_vars:
             if dv.n_opts <= 1:
                 raise RuntimeError('All design variables must have at least two options')
+            if has_pattern_without_dv:
+                dv.conditionally_active = True
         return design_vars
 
     @staticmethod
